@@ -18,7 +18,7 @@ from ex import fr
 def plain_run(s_obj, strategy, options):
     with warnings.catch_warnings(), contextlib.redirect_stdout(io.StringIO()):
         warnings.simplefilter("ignore")
-        s_obj.run(strategy, dict(options, skip_flex_report=True))
+        s_obj.run(strategy, dict({"skip_flex_report": True}, **options))
     gcs = list(s_obj.components.grid_connectors)
     return {"step_i": s_obj.step_i, "total": {g: list(s_obj.totalLoad[g]) for g in gcs}, "socs": [list(x) for x in s_obj.socs],
             "cmds": [dict(r["commands"]) for r in s_obj.results], "bat": {k: list(v) for k, v in s_obj.batteryLevels.items()},
@@ -164,6 +164,9 @@ class HistoryUnit(corr.Unit):
             opts = {"ALLOW_NEGATIVE_SOC": True}
             if rng.random() < 0.3:
                 opts["CONCURRENCY"] = 0.5
+            if rng.random() < 0.5:
+                # the default: the end-of-run flexibility report is computed (it must not touch the scenario either; round-3 seed C16-s8)
+                opts["skip_flex_report"] = False
             out.append({"js": js, "strategy": strategy, "options": opts, "weeks": rng.choice([1, 2, 5, 52]),
                         "other": rng.choice(["greedy", "balanced", "distributed"]), "seed": rng.randrange(10**6)})
         return out
